@@ -14,6 +14,10 @@ use std::collections::BTreeMap;
 /// same concatenation ("abc|defg" = "abcd|efg" = "ab|cdefg" = "abcde|fg")
 pub const DENOM_POOL: [&str; 14] = ["abc", "defg", "abcd", "efg", "ab", "cdefg", "abcde", "fg", "ua", "uab", "uabc", "b", "ab1", "zzz"];
 
+/// the address the first cw20 token of a world receives (factory, router, proxy are contract0..2);
+/// asserted in `FactoryWorld::build`
+pub const FIRST_TOKEN_ADDR: &str = "contract3";
+
 pub const FACTORY_HEAD: usize = 40;
 pub const FACTORY_OP: usize = 12;
 
@@ -35,9 +39,17 @@ pub fn gen_factory_cfg(s: &mut Src, min_denoms: usize, max_denoms: usize, allow_
     for i in order.into_iter().take(nd) {
         denoms.push(DENOM_POOL[i].to_string());
     }
+    let nt = s.idx(4);
+    // a bank denom may be spelled exactly like a contract address (the denom grammar admits it): one in four
+    // worlds with a cw20 token also hold a native denom named like the first token's address. The asset KIND,
+    // not the spelling, decides identity, so this denom and that token are different assets everywhere.
+    // (Factory-only worlds: the router's route-shape map is outside this domain, DESIGN F12.)
+    if nt >= 1 && s.chance(1, 4) {
+        denoms.push(FIRST_TOKEN_ADDR.to_string());
+    }
+    let nd = denoms.len();
     let native_decimals: Vec<u8> = (0..nd).map(|_| s.below(19) as u8).collect();
     let unregistered: Vec<usize> = if allow_unregistered { (0..nd).filter(|_| s.chance(1, 6)).collect() } else { vec![] };
-    let nt = s.idx(4);
     let token_decimals: Vec<u8> = (0..nt).map(|_| s.below(19) as u8).collect();
     WorldCfg { native_decimals, token_decimals, pairs: vec![], n_actors: 2, n_bystanders: 0, initial_balance: 1 << 60, allowance: 0, denoms, unregistered }
 }
@@ -77,6 +89,9 @@ pub struct FactoryWorld {
 impl FactoryWorld {
     pub fn build(cfg: &WorldCfg) -> FactoryWorld {
         let w = World::build(cfg).unwrap_or_else(|e| panic!("factory world build failed (harness): {e}"));
+        if let Some(t) = w.tokens.first() {
+            assert_eq!(t.addr.as_str(), FIRST_TOKEN_ADDR, "harness: first token address changed");
+        }
         let mut model = Registry::default();
         for (i, d) in w.natives.iter().enumerate() {
             if !cfg.unregistered.contains(&i) {
